@@ -985,6 +985,7 @@ func (cr *ConRun) runLock() {
 	cr.stat("steps", int(cr.Res.Steps))
 	cr.stat("decisions", int(cr.Res.Decisions))
 	cr.stat("preemptions", int(cr.Res.Preemptions))
+	cr.faultStats()
 	cr.stat("outcome:"+cr.Res.Outcome, 1)
 	switch cr.Res.Outcome {
 	case "ok":
